@@ -223,6 +223,26 @@ def parseSortOp (toks : List String) : Option (List (Spec.SRow F64)) := do
         ((cols.zip ((cells.drop (r * nc)).take nc)).filterMap fun (c, v) => v.map fun v => (c, v)))
   | _ => none
 
+/-- `distinct n ncols col… cell…`: rows without an id column -/
+def parseDistinctOp (toks : List String) : Option (List (Spec.SRow F64)) := do
+  match toks with
+  | n :: nc :: rest =>
+    let n ← parseNat n
+    let nc ← parseNat nc
+    let cols ← (rest.take nc).mapM unhex
+    let cells ← (rest.drop nc).mapM parseVal
+    if cells.length != n * nc then none
+    some ((List.range n).map fun r =>
+      ((cols.zip ((cells.drop (r * nc)).take nc)).filterMap fun (c, v) => v.map fun v => (c, v)))
+  | _ => none
+
+/-- positions of the rows DISTINCT keeps: the first occurrence of every row value, in input order -/
+def keptPositions (rows : List (Spec.SRow F64)) : List Nat :=
+  (List.range rows.length).filter fun i =>
+    match rows[i]? with
+    | some r => !((rows.take i).any fun q => q == r)
+    | none => false
+
 def rowId (r : Spec.SRow F64) : Nat :=
   match lookupIn ['i', 'd'] r with
   | some (.num x) => x.f.toUInt64.toNat
@@ -300,6 +320,23 @@ def run (c : Case) : CaseOut := Id.run do
               match Spec.validClause f64 q gs srows with
               | some cl => spec := "fail:" ++ cl
               | none => pure ()
+    | "distinct" :: rest =>
+      match parseDistinctOp rest with
+      | none => obs := obs ++ [[["bad-op"]]]
+      | some rows =>
+        let kept := keptPositions rows
+        obs := obs ++ [[("kept" :: kept.map toString)]]
+        tags := addTag tags "distinct-step-alone"
+        if kept.length < rows.length then tags := addTag tags "distinct-drops-a-duplicate"
+        if spec == "ok" then
+          match implObs with
+          | [("kept" :: ids)] =>
+            let ids := ids.filterMap parseNat
+            -- a row is dropped iff it equals an earlier row column by column
+            if !(ids.all fun i => kept.contains i) then spec := "fail:distinct-keeps-a-duplicate"
+            else if !(kept.all fun i => ids.contains i) then spec := "fail:distinct-drops-a-row-that-differs"
+            else if ids != kept then spec := "fail:distinct-reorders"
+          | _ => spec := "fail:distinct-no-output"
     | "sort" :: rest =>
       match parseSortOp rest with
       | none => obs := obs ++ [[["bad-op"]]]
